@@ -215,7 +215,7 @@ def run_one(job):
                 res = describe_error(e, table)
             for e in tracer.EV:
                 if e["ev"] == "exec_begin":
-                    ev.append({"ev": "exec_begin", "c": e["c"]})
+                    ev.append({"ev": "exec_begin", "c": e["c"], "kw": e.get("kw", [])})
             res["ev"] = "ret_run"
             ev.append(res)
     new = sorted(set(os.listdir(wd)) - before)
@@ -336,7 +336,7 @@ def run_check(chk, prop, tier, clause_prefixes, libsets, allkinds=False, keep=No
 def check_C12(tier):
     chk = core.Check("C12", tier)
     core.sut()
-    libsets = [("csv", decl.CSV_LIBS)] + ([("netcdf", decl.NETCDF_LIBS)] if tier == "thorough" else [])
+    libsets = [("csv", decl.CSV_LIBS + ("vextra",))] + ([("netcdf", decl.NETCDF_LIBS)] if tier == "thorough" else [])
     # an exception that is no MPilot error at all is, for an ill-formed model, also not "the specific error" C12 asks for
     run_check(chk, "C12", tier, {"C12", "C13"}, libsets)
     chk.cov["rule"] = ("declarations are exported from the live command classes into MC_Decl.tla; TLC builds, for every declared command (required-only and all-parameter forms) a valid model around it "
@@ -557,7 +557,7 @@ def check_C13(tier):
     chk = core.Check("C13", tier)
     core.sut()
     keep = []
-    libsets = [("csv", decl.CSV_LIBS)] + ([("netcdf", decl.NETCDF_LIBS)] if tier == "thorough" else [])
+    libsets = [("csv", decl.CSV_LIBS + ("vextra",))] + ([("netcdf", decl.NETCDF_LIBS)] if tier == "thorough" else [])
     run_check(chk, "C13", tier, {"C13"}, libsets, allkinds=True, keep=keep)
     cli_model(chk)
     libname, libs, netcdf, progs, jobs, res = keep[0]
